@@ -17,9 +17,9 @@ CLIENT = "polytune_server_core::client::PolicyClient::"
 
 
 class Ev:
-    __slots__ = ("kind", "detail", "body", "bk", "block", "nested", "sp", "extra")
+    __slots__ = ("kind", "detail", "body", "bk", "block", "nested", "sp", "extra", "via")
 
-    def __init__(self, kind, detail, body, bk, block, sp, nested=None, extra=None):
+    def __init__(self, kind, detail, body, bk, block, sp, nested=None, extra=None, via=None):
         self.kind = kind
         self.detail = detail
         self.body = body
@@ -28,6 +28,7 @@ class Ev:
         self.sp = sp
         self.nested = nested
         self.extra = extra
+        self.via = via        # (body key, block) inside the future of a spliced async helper the event really sits in
 
     def __repr__(self):
         return "%s(%s)@%s%s" % (self.kind, self.detail, fl(self.sp), " [in %s]" % self.nested if self.nested else "")
@@ -264,7 +265,8 @@ class Handler:
                             # it is built: its events happen here, like those of code written in place
                             inline_helper = bool(cb.j.get("reowned_from")) and bool(blk.get("inl"))
                             for e in self._nested_events(ck, cb):
-                                evs.append(Ev(e.kind, e.detail, b, k, bi, e.sp, nested=None if inline_helper else cb.id.replace(self.owner, ""), extra=e.extra))
+                                evs.append(Ev(e.kind, e.detail, b, k, bi, e.sp, nested=None if inline_helper else cb.id.replace(self.owner, ""), extra=e.extra,
+                                              via=(e.via or (e.bk, e.block)) if inline_helper else None))
             t = blk["t"]
             if t["k"] == "call":
                 if t["d"]["l"] == 0 and not t["d"]["pr"] and any(n.endswith("from_residual") for n in callee_names(t)) and "instrument" not in t["sp"]:
